@@ -1,4 +1,5 @@
 """Per-property definitions for ./check: Lean obligations, oracles over the implementation's results."""
+import os
 
 TRUSTED_BASE = [
     "Lean 4.33 kernel (thorough tier: re-checked with leanchecker); axioms limited to propext, Classical.choice, Quot.sound",
@@ -8,7 +9,7 @@ TRUSTED_BASE = [
     "Lean compiler/runtime for the driver executable and the Rust harness (affect only the correspondence/oracle tests, not the theorems)",
 ]
 
-HOOK_COMMITS = ["f98da77", "3658628"]
+HOOK_COMMITS = ["f98da77", "3658628", "c3e47df"]
 
 PENDING = {}
 
@@ -356,6 +357,8 @@ def skip_compare(op, impl, model):
     if impl == "unparsable":          # serde_json rejected the text: outside C06's quantifier
         return True
     if model in ("unmodelled", "n/a"):
+        return True
+    if op.split("\t", 1)[0] == "macro":   # answered by cargo + rustc (external oracle), nothing to compare
         return True
     return False
 
@@ -832,6 +835,23 @@ def external_ops(pid, ops, impl, tier):
             seen.add(sx)
             g_ops.append("genx\t" + sx)            # the generator's text for the shape the code inferred
             g_impl.append(text.encode().hex())
+    if pid == "C16":
+        # the include macro and compile_json, end to end: a crate whose build script compiles five collections
+        # (names with dots and dashes) and whose modules include them through the macro
+        import subprocess as _sp
+        mc = os.path.join(os.path.dirname(os.path.dirname(os.path.abspath(__file__))), "macrocheck")
+        try:
+            pr = _sp.run(["cargo", "run", "--offline", "-q"], cwd=mc, stdout=_sp.PIPE, stderr=_sp.STDOUT,
+                         env=dict(os.environ, CARGO_NET_OFFLINE="true"), timeout=900)
+            out = pr.stdout.decode(errors="replace")
+            okm = pr.returncode == 0 and out.strip().splitlines()[-1:] == ["ok 2 1 1 1 1"]
+        except Exception as e:          # noqa: BLE001
+            out, okm = str(e), False
+        mfail = []
+        if not okm:
+            mfail.append({"op": "macro\tcollection,a.b,my-shapes,v1.2.3,x", "impl": out[-700:], "expected": "ok 2 1 1 1 1",
+                          "why": "include_json_shape!(name) in a crate must read exactly the file that compile_json(name, ..) wrote in its build script"})
+        return g_ops + ["macro"], g_impl + ["ok" if okm else "failed"], [None] * (len(g_ops) + 1), mfail
     if pid not in ("C13", "C15"):
         return g_ops, g_impl, [None] * len(g_ops), []
     import rustbatch
